@@ -343,6 +343,22 @@ Definition holds_C06_value (s s' : pstate) : bool :=
 Definition holds_C06_untouched (s s' : pstate) : bool :=
   (p_rx s =? p_rx s') && (p_ry s =? p_ry s') && (p_ps s =? p_ps s').
 
+(* creation of a ranged pool (CreateRangedPool): of the offered (x, y) the pool accepts (ax, ay);
+   never more of either coin than was offered.  Evaluated on the amm result and, through the keeper,
+   on the coins that left the creator's wallet / arrived in the pool's reserve. *)
+Definition holds_C06_create (x y ax ay : Z) : bool :=
+  (0 <=? ax) && (ax <=? x) && (0 <=? ay) && (ay <=? y).
+
+(* the three Newton square roots CreateRangedPool computes (utils.DecApproxSqrt) are positive and in
+   the order of their arguments: 0 < sqrt(min) <= sqrt(initial) <= sqrt(max).  Hypothesis of
+   c06_create_ranged_bounded (no accuracy / monotonicity lemma about the 300-step Newton iteration is
+   proved); the runner evaluates it on every ranged creation it replays. *)
+Definition ranged_roots_ok (minP maxP initP : Z) : bool :=
+  match sqrt_d initP, sqrt_d minP, sqrt_d maxP with
+  | Some sp, Some sm, Some sl => (0 <? sm) && (sm <=? sp) && (sp <=? sl)
+  | _, _, _ => true
+  end.
+
 (* ranged pool quote/base amounts offered by the order-book clamps never exceed the reserves *)
 Definition holds_C06_clamp_buy (rx price amt : Z) : bool :=
   (0 <=? amt) && ((amt =? MaxCoinAmount) || (price * amt <=? rx * P18)).
